@@ -162,6 +162,17 @@ func c10Pay(c *fw.Ctx, i int) {
 	stapA := r.Bool()
 	avc := r.Bool()
 	calls, expect, pairs, pattern := c10Stream(r, mtu)
+	if r.Chance(1, 12) {
+		// forbidden_zero_bit set on some units (damaged in transit, forwarded as they are): F is part of the unit's first octet
+		for _, cl := range calls {
+			for _, u := range cl.units {
+				if r.Chance(1, 3) {
+					u[0] |= 0x80
+				}
+			}
+		}
+		c.Count("streams_with_F_bit_units", 1)
+	}
 	p := &codecs.H264Payloader{DisableStapA: !stapA}
 	var payloads [][]byte
 	var callDesc []string
@@ -338,10 +349,17 @@ func c10Dec(c *fw.Ctx, i int) {
 	var payloads [][]byte
 	var desc []string
 	n := r.Range(1, 8)
+	fStream := r.Chance(1, 12) // some units carry forbidden_zero_bit = 1
+	setF := func(u []byte) []byte {
+		if fStream && r.Chance(1, 3) {
+			u[0] |= 0x80
+		}
+		return u
+	}
 	for len(units) < n {
 		switch r.Intn(3) {
 		case 0: // single
-			u := gen.H264Unit(r, r.Range(1, 23), r.Pick(1, 2, 3, r.Range(1, 60)))
+			u := setF(gen.H264Unit(r, r.Range(1, 23), r.Pick(1, 2, 3, r.Range(1, 60))))
 			if len(u) == 2 && r.Chance(1, 4) {
 				u = u[:1] // a header-only NAL unit is a legal single NAL unit packet
 			}
@@ -353,7 +371,7 @@ func c10Dec(c *fw.Ctx, i int) {
 			pl := []byte{byte(r.Intn(4))<<5 | 24}
 			big := r.Chance(1, 400) // an aggregation packet longer than 64 KiB
 			for q := 0; q < k; q++ {
-				u := gen.H264Unit(r, r.Range(1, 23), r.Pick(2, 3, r.Range(1, 40)))
+				u := setF(gen.H264Unit(r, r.Range(1, 23), r.Pick(2, 3, r.Range(1, 40))))
 				if r.Chance(1, 6) {
 					u = []byte{byte(r.Intn(4))<<5 | byte(r.Pick(10, 11, 9, 1))} // a header-only NAL unit (end of sequence / end of stream)
 				}
@@ -367,7 +385,7 @@ func c10Dec(c *fw.Ctx, i int) {
 			payloads = append(payloads, pl)
 			desc = append(desc, fmt.Sprintf("stap-a(%d units)", k))
 		default: // FU-A
-			u := gen.H264Unit(r, r.Range(1, 23), r.Range(2, 200))
+			u := setF(gen.H264Unit(r, r.Range(1, 23), r.Range(2, 200)))
 			if r.Chance(1, 150) {
 				u = gen.H264Unit(r, r.Range(1, 23), r.Pick(65535, 65536, 65537, 70000, 131073))
 			}
